@@ -322,7 +322,7 @@ func cmdCheck(args []string) {
 	fs := flag.NewFlagSet("check", flag.ExitOnError)
 	repo := fs.String("repo", envOr("VERIF_REPO", "/repo"), "repository root")
 	verif := fs.String("verif", "/verif", "verif root")
-	workers := fs.Int("workers", 16, "parallel workers")
+	workers := fs.Int("workers", envInt("VERIF_WORKERS", 16), "parallel workers")
 	replay := fs.String("replay", "", "replay a saved counterexample file natively")
 	only := fs.String("only", "", "run only this harness function")
 	keep := fs.Bool("keep", false, "keep work dir")
@@ -677,6 +677,13 @@ func kfAll(kfs []KnownFinding, prop string, vs []*sym.Violation) bool {
 		}
 	}
 	return true
+}
+
+func envInt(k string, d int) int {
+	if v, err := strconv.Atoi(os.Getenv(k)); err == nil && v > 0 {
+		return v
+	}
+	return d
 }
 
 func envOr(k, d string) string {
